@@ -512,3 +512,74 @@ Definition check_case (cs : list N) (bows : list bool) (conts : list nat) (ps : 
                           match nth_error ps pi with Some p => check_call cs p off other pre out | None => false end
                         end) calls
   && check_lattice cs ps dict lat.
+
+(* ------------------------------------------------------------------ OOV morphemes of the result *)
+(* dic/word_id.rs: a WordId packs (dictionary, word) into a u32; WordId::oov(pos) = new(0xf, pos) *)
+Definition wid_new (dic word : N) : N :=
+  N.lor (N.shiftl (N.land dic 15) OF.word_id_dic_shift) (N.land word OF.word_mask).
+Definition wid_oov (pos : N) : N := wid_new OF.oov_dic_id pos.
+Definition wid_dic (w : N) : N := N.shiftr w OF.word_id_dic_shift.
+Definition wid_word (w : N) : N := N.land w OF.word_mask.
+Definition wid_is_oov (w : N) : bool := wid_dic w =? OF.oov_dic_id.
+
+(* the part of WordInfoData that the accessors in question read; text = list of code points *)
+Record word_info := mkWI { wi_surface : list N; wi_pos : N; wi_normalized : list N; wi_dictionary : list N;
+                           wi_reading : list N }.
+
+Definition assoc (name : string) (l : list (string * string)) : string :=
+  match find (fun p => String.eqb (fst p) name) l with Some p => snd p | None => EmptyString end.
+Definition slice {A} (l : list A) (b e : nat) : list A := firstn (e - b) (skipn b l).
+
+(* resolve_best_path, OOV branch: WordInfoData { pos_id: word_id.word() as u16, surface: <slice of the analysed text>,
+   ..Default }.  [orig] / [norm] = original and normalised (analysed) text; b, e = character range of the node (the model
+   identifies character indices of both texts, which holds when normalisation maps characters one to one). *)
+Definition oov_word_info (orig norm : list N) (w : N) (b e : nat) : word_info :=
+  let src := fun f => assoc f OF.oov_info_fields in
+  mkWI (if String.eqb (src "surface"%string) "curr_slice_c" then slice norm b e
+        else if String.eqb (src "surface"%string) "orig_slice_c" then slice orig b e else [])
+       (if String.eqb (src "pos_id"%string) "word_id.word:u16" then N.modulo (wid_word w) 65536 else 0)
+       [] [] [].
+
+(* WordInfo::{normalized_form, dictionary_form, reading_form}: the stored form, or the fallback when it is empty *)
+Definition form_of (name : string) (stored : list N) (wi : word_info) : list N :=
+  match stored with
+  | [] => if String.eqb (assoc name OF.form_fallbacks) "surface" then wi_surface wi else []
+  | _ => stored
+  end.
+Definition normalized_form (wi : word_info) := form_of "normalized_form" (wi_normalized wi) wi.
+Definition dictionary_form (wi : word_info) := form_of "dictionary_form" (wi_dictionary wi) wi.
+Definition reading_form (wi : word_info) := form_of "reading_form" (wi_reading wi) wi.
+
+(* Morpheme::dictionary_id *)
+Definition dictionary_id (w : N) : Z := if wid_is_oov w then OF.oov_dictionary_id else Z.of_N (wid_dic w).
+
+(* what a morpheme of the result reports *)
+Record morph_view := mkMV { mv_is_oov : bool; mv_dic : Z; mv_pos : N; mv_surface : list N; mv_normalized : list N;
+                            mv_dictionary : list N; mv_reading : list N }.
+Definition oov_morpheme (orig norm : list N) (w : N) (b e : nat) : morph_view :=
+  let wi := oov_word_info orig norm w b e in
+  mkMV (wid_is_oov w) (dictionary_id w) (wi_pos wi) (slice orig b e) (normalized_form wi) (dictionary_form wi) (reading_form wi).
+
+Definition cps_eqb := list_eqb N.eqb.
+Definition morph_view_eqb (a b : morph_view) : bool :=
+  Bool.eqb (mv_is_oov a) (mv_is_oov b) && Z.eqb (mv_dic a) (mv_dic b) && (mv_pos a =? mv_pos b)
+  && cps_eqb (mv_surface a) (mv_surface b) && cps_eqb (mv_normalized a) (mv_normalized b)
+  && cps_eqb (mv_dictionary a) (mv_dictionary b) && cps_eqb (mv_reading a) (mv_reading b).
+
+(* correspondence entry: the morphemes of a result as (raw word id, character range, reported view).
+   An OOV morpheme must report exactly what the model computes, and -- the property, with the constants of its statement --
+   is_oov, dictionary -1 and the normalised text of its range as all three forms; a dictionary morpheme is not OOV and reports
+   its dictionary. *)
+Definition check_morph (orig norm : list N) (m : N * nat * nat * morph_view) : bool :=
+  match m with
+  | (w, b, e, v) =>
+    if wid_is_oov w then
+      morph_view_eqb (oov_morpheme orig norm w b e) v
+      && mv_is_oov v && Z.eqb (mv_dic v) (-1)
+      && cps_eqb (mv_normalized v) (slice norm b e) && cps_eqb (mv_dictionary v) (slice norm b e)
+      && cps_eqb (mv_reading v) (slice norm b e) && cps_eqb (mv_surface v) (slice orig b e)
+      && (mv_pos v =? N.land w 268435455)
+    else negb (mv_is_oov v) && Z.eqb (mv_dic v) (dictionary_id w) && Z.leb 0 (mv_dic v)
+  end.
+Definition check_morphs (orig norm : list N) (ms : list (N * nat * nat * morph_view)) : bool :=
+  forallb (check_morph orig norm) ms.
